@@ -432,6 +432,17 @@ def impl_read(irimport, text, strict=True):
         return Internal
 
 
+def has_unres(t):
+    """does the canonical structure contain a dangling reference ('unres', name)?"""
+    if isinstance(t, tuple):
+        if len(t) == 2 and t[0] == 'unres':
+            return True
+        return any(has_unres(x) for x in t)
+    if isinstance(t, list):
+        return any(has_unres(x) for x in t)
+    return False
+
+
 def mutate(rng, text):
     """a small malformed stream: delete / duplicate / replace one token-ish piece of one line"""
     lines = text.split('\n')[:-1]
@@ -502,8 +513,10 @@ def correspond(ctx, flags, mods, lex_pool=()):
                 dist['mutants'] += 1
                 dist['mutant_read_ok'] += isinstance(rv, OkV)
                 # faulty texts: only the fact that reading fails is compared
-                cases.append(('okfail (case_read %s %s %s)' % (cfg, tab_term(tp2), lines_term(mt)),
-                              rv if isinstance(rv, OkV) else Internal))
+                # a read that leaves dangling references (placeholder never defined, or a reference into another
+                # function: both are 'unres' for irimport) counts as failed on both sides
+                cases.append(('case_read_strict %s %s %s' % (cfg, tab_term(tp2), lines_term(mt)),
+                              rv if isinstance(rv, OkV) and not has_unres(rv.v) else Internal))
                 recs.append(('read-mutant', m, mt))
     if lex_pool:
         lc, lr = lexer_cases(irimport, cfg, lex_pool)
